@@ -1002,15 +1002,20 @@ class Repository(controldir.ControlComponent, _RelockDebugMixin):
 
         # Get the revision-ids of interest
         required_trees = set()
+        lefthand_parents = set()
         for revision in revisions:
             required_trees.add(revision.revision_id)
-            required_trees.update(revision.parent_ids[:1])
+            lefthand_parents.update(revision.parent_ids[:1])
+        # A left-hand parent may be a ghost; the delta is then relative to the
+        # empty tree, as for a revision without parents.
+        ghosts = lefthand_parents - set(self.has_revisions(lefthand_parents))
+        required_trees.update(lefthand_parents - ghosts)
 
         trees = {t.get_revision_id(): t for t in self.revision_trees(required_trees)}
 
         # Calculate the deltas
         for revision in revisions:
-            if not revision.parent_ids:
+            if not revision.parent_ids or revision.parent_ids[0] in ghosts:
                 old_tree = self.revision_tree(_mod_revision.NULL_REVISION)
             else:
                 old_tree = trees[revision.parent_ids[0]]
